@@ -104,11 +104,26 @@ def run_slice(prog, ob, slice_dom, checks_on, qdir, tier_timeout, validate_point
     rec = {'fn': ob.fn, 'kind': ob.kind, 'profile': 'overflow-checks=' + ('on' if checks_on else 'off'), 'slice': {k: (list(v) if isinstance(v, (tuple, list)) else v) for k, v in slice_dom.items()},
            'abstractions': list(ob.abstractions), 'known_finding_classes_assumed_away': list(ob.kf), 'ob_note': ob.note}
     t_start = time.time()
+    # wall-clock cap on the symbolic execution itself (term growth on shapes the string layer handles badly must end as inconclusive)
+    import signal
+    cap = int(ob.opts.get('symex_cap', max(120, min(int(ob.timeout or tier_timeout), 900))))
+    fired = []
+    def _alarm(sig, frm): fired.append(1); raise TimeoutError('symbolic execution time cap')
+    old_h = None
+    try: old_h = signal.signal(signal.SIGALRM, _alarm); signal.alarm(cap)
+    except (ValueError, AttributeError): old_h = None
     try:
         se = sym_execute(prog, ob, slice_dom, checks_on)
-    except (Inconclusive, MergeFail, MirError, KeyError, AttributeError, IndexError, TypeError, AssertionError, ValueError, RecursionError) as e:
-        rec.update(verdict='inconclusive', reason='symbolic execution: %s: %s' % (type(e).__name__, e), trace=traceback.format_exc()[-1500:])
+    except BaseException as e:
+        if not fired and not isinstance(e, (Inconclusive, MergeFail, MirError, KeyError, AttributeError, IndexError, TypeError, AssertionError, ValueError, RecursionError)): raise
+        why = ('time cap of %d s reached' % cap) if fired else '%s: %s' % (type(e).__name__, e)
+        rec.update(verdict='inconclusive', reason='symbolic execution: ' + why, trace=traceback.format_exc()[-1500:])
         return rec
+    finally:
+        try:
+            signal.alarm(0)
+            if old_h is not None: signal.signal(signal.SIGALRM, old_h)
+        except (ValueError, AttributeError): pass
     ctx = se['ctx']; ex = se['ex']
     base = list(se['dom']) + list(ctx.side) + [znot(c) for _, c in se['kf']]
     panic_or = zor(*[g for g, _, _ in ctx.panics])
